@@ -290,7 +290,12 @@ func init() {
 		if c.Thorough {
 			maxW = 300
 		}
-		width := maxW - c.Choose(maxW) // widest first: a width remembered from an earlier rendering would be too large for the later ones
+		width := maxW - c.Choose(maxW+1) // widest first: a width remembered from an earlier rendering would be too large for the later ones
+		reported := width
+		if width == 0 {
+			width = 80 // a terminal that reports no columns: the documented fallback width applies
+			c.Hit("zero-columns")
+		}
 		row := rows[ri]
 		key := fmt.Sprint(ri, onCmd, wide, posVariant, pi, dscript, lf)
 		c.Describe(func() interface{} {
@@ -306,7 +311,7 @@ func init() {
 			c.Fail("harness-no-pty", nil)
 			return
 		}
-		if err := c17SetWidth(width); err != nil {
+		if err := c17SetWidth(reported); err != nil {
 			c.Fail("harness-set-width", err.Error())
 			return
 		}
@@ -449,7 +454,7 @@ func init() {
 		Setup:      c17Setup,
 		Rule: "row under test: long name of 0/1/5/20 characters in {ASCII, 2-byte, 3-byte} script x short name {none, ASCII, é} x value name {none, ASCII, non-ASCII} x choices?, plus rows whose argument is optional (with and without value name), plus every named row inside a group with a long namespace, alone, nested in a hidden group, nested in a second namespaced group, and a row with eight long choices (column beyond 64), last of its block, on the parser or on an active command (indented); the parser lists two commands, one described and with a multi-byte name " +
 			"x neighbour row {widest of all, 1-character} x described positional {none, ASCII name, non-ASCII name, a long name on an active command that has no options} x description = marker word + word-length pattern (8 quick / 16 thorough patterns over lengths 1,5,9,10,11,25,40) in {ASCII, 2-byte, 3-byte, 4-byte (non-BMP)} script (quick: the last two without a described positional) x embedded line break {none, after marker, after first word} or two consecutive blanks {after marker, after first word; ASCII descriptions} " +
-			"x every terminal width 1..100 (quick) / 1..300 (thorough), visited from the widest down within one process, set with TIOCSWINSZ on a real pty whose slave is fd 0 (the library's own ioctl reads it); oracle: no panic; all descriptions (found through their marker words) start in one character column; " +
+			"x every terminal width 1..100 (quick) / 1..300 (thorough), and 0 (a terminal that reports no columns: laid out as for 80), visited from the widest down within one process, set with TIOCSWINSZ on a real pty whose slave is fd 0 (the library's own ioctl reads it); oracle: no panic; all descriptions (found through their marker words) start in one character column; " +
 			"every continuation line is exactly that many blanks + text; all lines valid UTF-8; joining hyphen breaks gives back the original word sequence; no description line longer than the width while width - column >= 10; distinct = distinct (column, width asserted?, script, line count)",
 		Assumptions:  []string{"columns are counted in characters (East-Asian display width is not modelled)", "descriptions contain no hyphens and no empty lines"},
 		RequiredHits: []string{"rendered", "wrapped", "width-asserted"},
